@@ -367,11 +367,20 @@ func genPool(t *rapid.T) *decPool {
 
 // ---- frame builders ---------------------------------------------------------------------
 
+var frameCompressors = map[prefItem]kgo.Compressor{}
+
 // kgoFrame compresses x with the default compressor configured for exactly one codec.
 func kgoFrame(p prefItem, x []byte) []byte {
-	c, err := kgo.DefaultCompressor(p.codec())
-	if err != nil || c == nil {
-		panic(fmt.Sprintf("VERIF-INFRA: cannot build a compressor for %v: %v", p, err))
+	// frame building is input preparation: the compressors are cached per (codec, level)
+	// so that the hostile/limit tests do not pay an encoder construction per case
+	c := frameCompressors[p]
+	if c == nil {
+		var err error
+		c, err = kgo.DefaultCompressor(p.codec())
+		if err != nil || c == nil {
+			panic(fmt.Sprintf("VERIF-INFRA: cannot build a compressor for %v: %v", p, err))
+		}
+		frameCompressors[p] = c
 	}
 	out, ct := c.Compress(new(bytes.Buffer), x)
 	if int(ct) != p.Kind {
